@@ -282,7 +282,7 @@ def loop_stage(ctx):
     """The bookkeeping of fastcc's main loop: `FastccM.fastcc` (Lean) is given the answers of the solves the real `fastcc` made and has to
     ask for the same solves (same reactions, same flip) and keep the same reactions."""
     rng = __import__("random").Random(f"c19-loop-{ctx.seed}-{ctx.attempt}")
-    n = ctx.scale(60, 1200)
+    n = ctx.scale(60, 600)
     lines, metas = [], []
     errors = {}
     for i in range(n):
@@ -331,7 +331,7 @@ def blocked_stage(ctx):
     from fractions import Fraction
     var = importlib.import_module("cobra.flux_analysis.variability")
     rng = __import__("random").Random(f"c19-blocked-{ctx.seed}-{ctx.attempt}")
-    n = ctx.scale(60, 1200)
+    n = ctx.scale(60, 600)
     lines, reals, errors = [], [], {}
     for _ in range(n):
         spec = gen_spec(rng)
@@ -397,7 +397,7 @@ def run(ctx):
     common.proof_stage(ctx, "CobraModel.Props.C19", extra_scan=["CobraModel/Lemmas/Formulations.lean", "CobraModel/Lemmas/LP.lean", "CobraModel/Model/Fastcc.lean", "CobraModel/Lemmas/Fastcc.lean"] + auxcorr.SCAN)
     directed = aux_stage(ctx) + loop_stage(ctx) + blocked_stage(ctx)
     rng = ctx.rng
-    n = ctx.scale(200, 5000)
+    n = ctx.scale(200, 2500)
     ran, tries = 0, 0
     skipped, kinds = {}, {"blocked": 0, "fastcc": 0, "open_exchanges": 0, "fastcc_known_drops": 0}
     distinct = set()
